@@ -52,6 +52,8 @@ def parseComp (s : String) : Option Proto :=
       | "ip4" => some (.ip4 n) | "ip6" => some (.ip6 n) | "dns" => some (.dns n)
       | "dns4" => some (.dns4 n) | "dns6" => some (.dns6 n) | "tcp" => some (.tcp n)
       | "udp" => some (.udp n) | "p2p" => some (.p2p n) | "other" => some (.other n)
+      -- `/dnsaddr/<name>`: a component no transport of the node dials (not `ip4|ip6|dns|dns4|dns6`)
+      | "dnsaddr" => some (.other (200 + n))
       | "ws" => some .ws | "wss" => some .wss | "quicV1" => some .quicV1
       | _ => none
   | _ => none
